@@ -1756,6 +1756,17 @@ func checkWriteFailureLatched(c *Ctx, rule string) {
 
 func checkLatchedWrites(c *Ctx, rule string, w *ssa.Function, writes []ssa.Instruction, key string) {
 	p := c.P
+	// conn itself, or a type defined as conn (`type latchedWriter conn`: the same fields seen as the writer)
+	isConnLike := func(t types.Type) bool {
+		if typeName(t) == "conn" {
+			return true
+		}
+		cn := p.NamedType(p.Sftp, "conn")
+		if pt, ok := t.(*types.Pointer); ok {
+			t = pt.Elem()
+		}
+		return cn != nil && types.Identical(t.Underlying(), cn.Underlying())
+	}
 	{
 		for _, wr := range writes {
 			call := wr.(*ssa.Call)
@@ -1769,7 +1780,7 @@ func checkLatchedWrites(c *Ctx, rule string, w *ssa.Function, writes []ssa.Instr
 							continue
 						}
 						if u, ok := bo.X.(*ssa.UnOp); ok && u.Op == token.MUL {
-							if st, name, _, ok := fieldOf(u.X); ok && typeName(st) == "conn" && bo.X.Type().String() == "error" {
+							if st, name, _, ok := fieldOf(u.X); ok && isConnLike(st) && bo.X.Type().String() == "error" {
 								latch = name
 							}
 						}
@@ -1792,7 +1803,7 @@ func checkLatchedWrites(c *Ctx, rule string, w *ssa.Function, writes []ssa.Instr
 							continue
 						}
 						if u, ok := bo.X.(*ssa.UnOp); ok && u.Op == token.MUL {
-							if st, name, _, ok := fieldOf(u.X); ok && typeName(st) == "conn" && name == latch && dominates(iff, call) {
+							if st, name, _, ok := fieldOf(u.X); ok && isConnLike(st) && name == latch && dominates(iff, call) {
 								c.check(heldAt(u, w.Params[0], "conn.Mutex") == "Lock", rule, key+" (latch read under the mutex)", p.Pos(u.Pos()), "conn."+latch+" is read with conn's mutex held",
 									"the remembered write failure is looked at before the connection's mutex is taken: a sender that queued for the mutex while the previous packet was torn writes its whole packet behind the torn one")
 							}
@@ -1842,7 +1853,7 @@ func checkLatchedWrites(c *Ctx, rule string, w *ssa.Function, writes []ssa.Instr
 						return false
 					}
 					t, name, _, ok := fieldOf(st.Addr)
-					return ok && typeName(t) == "conn" && name == latch && !isNilConst(st.Val)
+					return ok && isConnLike(t) && name == latch && !isNilConst(st.Val)
 				}
 				isCloseCall := func(in ssa.Instruction, _ int) bool {
 					cc := callOf(in)
